@@ -8,7 +8,9 @@ import Juniper.Model.ParMap
 context), `expire`, `close`, `pcancel`, `src item <v>` | `src end` | `src err <k>` (the pending source
 call returns), `f <idx> ok <v>` | `f <idx> err <k>` (the pending call of f returns), `obs <observation>`.
 The instrumented source of the harness returns `ctx.Err()` by itself when its context is done and its
-`Close` returns at once; both are therefore internal steps here. -/
+`Close` returns at once; both are therefore internal steps here. With `init <P> <B> <gmp> slow` the
+source's `Close` is gated like its `Next`: the return of `Close` is then the environment action
+`src closed`, and quiescent states with the dispatcher inside `s.Close()` are observable (`src=…C`). -/
 namespace Juniper.Driver.C14
 open Juniper.Driver Juniper.Driver.ParConform Juniper.Model.ParMap
 
@@ -19,6 +21,8 @@ structure DSt where
   cfg : Cfg := { code := code, P := 1, B := 1, gmp := 1 }
   states : List St := []
   overflow : Bool := false
+  /-- the source's `Close` is an action of the environment (`src closed`), not an internal step -/
+  slow : Bool := false
 
 /-- error numbers standing for "the source returned its context's error" -/
 def srcCtxDeadline : Nat := 9001
@@ -37,9 +41,9 @@ def dstep (cfg : Cfg) (s : St) (l : Label) : Option St :=
     else step cfg s l
   | _ => step cfg s l
 
-def sys (cfg : Cfg) : Sys St Label :=
+def sys (cfg : Cfg) (slow : Bool := false) : Sys St Label :=
   { step := dstep cfg,
-    internal := fun s => internalLabels s ++ [.srcCloseRet, srcCtxLabel s] }
+    internal := fun s => internalLabels s ++ (if slow then [srcCtxLabel s] else [.srcCloseRet, srcCtxLabel s]) }
 
 def showErr : Err → String
   | .f k => s!"F{k}"
@@ -78,7 +82,7 @@ def reply (d : DSt) : DSt × String :=
   if d.states.isEmpty then (d, "empty") else (d, s!"ok {d.states.length}")
 
 def act (d : DSt) (f : St → Option St) : DSt × String :=
-  let (st, ok) := advance (sys d.cfg) d.states f
+  let (st, ok) := advance (sys d.cfg d.slow) d.states f
   reply { d with states := st, overflow := d.overflow || !ok }
 
 def findWorker (s : St) (k : Nat) : Option Nat :=
@@ -87,9 +91,16 @@ def findWorker (s : St) (k : Nat) : Option Nat :=
 def step (d : DSt) : List String → DSt × String
   | ["init", p, b, g] =>
     let cfg : Cfg := { code := code, P := intOr p, B := intOr b, gmp := natOr g 1 }
-    act { d with cfg := cfg, states := [init cfg], overflow := false } some
+    act { d with cfg := cfg, states := [init cfg], overflow := false, slow := false } some
+  | ["init", p, b, g, "slow"] =>
+    let cfg : Cfg := { code := code, P := intOr p, B := intOr b, gmp := natOr g 1 }
+    act { d with cfg := cfg, states := [init cfg], overflow := false, slow := true } some
+  | ["src", "closed"] => act d (fun s => Stream.step d.cfg s .srcCloseRet)
   | ["next", l] => act d (fun s => Stream.step d.cfg s (.nextCall (l == "1")))
-  | ["expire"] => act d (fun s => Stream.step d.cfg s .consCtxExpire)
+  | ["expire"] =>
+    -- a `Next` that is already inside `s.eg.Wait()` does not look at its context any more: its expiry
+    -- is not a step of the LTS (observable only with a gated source `Close`, where that wait is quiescent)
+    act d (fun s => if s.cons == .nextWait then some s else Stream.step d.cfg s .consCtxExpire)
   | ["close"] => act d (fun s => Stream.step d.cfg s .closeCall)
   | ["pcancel"] => act d (fun s => Stream.step d.cfg s .parentCancel)
   | ["src", "item", v] => act d (fun s => Stream.step d.cfg s (.srcRet (.item (natOr v))))
